@@ -10,6 +10,7 @@ THEOREMS = [
     "Spowtd.classify_shift",
     "Spowtd.flags_shift_invariant",
     "Spowtd.zone_change_is_shift",
+    "Spowtd.crossings_shift_x",
 ]
 TRUSTED_BASE = TRUSTED
 ASSUMPTIONS = ASSUME + [
@@ -53,6 +54,7 @@ def origins(rng, dt, k):
 def run(ctx):
     nrec, k = (30, 8) if ctx.tier == "quick" else (300, 40)
     rng = ctx.rng
+    curves_across_origins(ctx, 4 if ctx.tier == "quick" else 60, 3 if ctx.tier == "quick" else 8)
     ob_corr = "flags / intervals / pairing of `spowtd classify` = model classifyAll at Float, at every origin"
     ob_rel = "two loads of the same data at two origins give tables that differ by exactly the shift"
     for i in range(nrec):
@@ -103,7 +105,50 @@ def run(ctx):
                 ctx.corr_break(ob_corr, {"input": inp, "impl": im, "model": m})
 
 
+def curves_across_origins(ctx, n, k):
+    """both master curves (and the offsets of their intervals) at several origins and in a fixed-offset zone"""
+    from . import pipeline as P
+    ob = "both master curves unchanged when the record is moved to another origin / fixed-offset zone"
+    rng = ctx.rng
+    for i in range(n):
+        tr = P.gen_truth(rng, noise=rng.choice([0.0, 0.4]), dt=rng.choice([600, 1200, 1200, 1800]))
+        zstep = rng.choice([1.0, 0.5, 2.0])
+        base = None
+        runs = [(t0, "UTC") for t0 in origins(rng, tr.dt, k)] + [(86400 * 15000 // tr.dt * tr.dt, "Etc/GMT%+d" % rng.choice([-11, -3, 4, 9]))]
+        for t0, tz in runs:
+            tr.t0 = t0
+            w = P.run_workflow(ctx, tr.rows(), tr.s, tr.j, zstep, tz=tz)
+            st, t = w["status"], w["tables"]
+            if st.get("rise", ("x",))[0] != "ok" or st.get("recession", ("x",))[0] != "ok":
+                ctx.count("curves_not_assembled")
+                break
+            e0 = t["grid_time"][0][0]
+            cur = {"rise": t["average_rising_depth"], "recession": t["average_recession_time"],
+                   "rising_interval": [[int(a) - e0, b] for a, b in t["rising_interval"]],
+                   "recession_interval": [[int(a) - e0, b] for a, b in t["recession_interval"]]}
+            ctx.case(("c07-curves", i, t0, tz), True)
+            if base is None:
+                base = (t0, tz, cur)
+                continue
+
+            def close(x, y):
+                return len(x) == len(y) and all(a[0] == b[0] and abs(a[1] - b[1]) <= 1e-9 * max(1.0, abs(b[1])) for a, b in zip(x, y))
+            bad = [name for name in cur if not close(cur[name], base[2][name])]
+            ctx.obligation(ob, not bad)
+            if bad:
+                ctx.violation("impl-violation", "c07Holds", {
+                    "input": {"truth": tr.describe(), "zeta_step": zstep, "first": {"t0": base[0], "timezone": base[1]},
+                              "second": {"t0": t0, "timezone": tz}},
+                    "impl": {"first": {k_: base[2][k_][:4] for k_ in bad}, "second": {k_: cur[k_][:4] for k_ in bad}},
+                    "oracle": {"name": "c07Holds", "result": False,
+                               "witness": {"differs_on": bad, "origin_a": base[0], "origin_b": t0, "zone_b": tz}}})
+                break
+
+
 def replay(ctx, doc):
+    if "truth" in doc.get("input", {}):
+        print("replay of master-curve origin cases: rerun the check with VERIF_SEED=%s" % doc.get("seed"))
+        return True
     a, b = doc["input"]["first"], doc["input"]["second"]
     out = []
     for x in (a, b):
